@@ -42,7 +42,7 @@ ASSUMPTIONS = [
 ]
 REPORT_COUNTERS = ["cases", "crash_points_enumerated", "faults_raised", "scn_first_call", "scn_rebuild", "scn_cache_miss",
                    "scn_next_chain", "scn_invalid_method", "scn_hook_raises", "scn_recursion", "probe_vectors_compared",
-                   "invalid_method_positions", "invalid_method_via_linkback_parent", "recursion_faults", "hook_faults", "post_fault_behaviours"]
+                   "invalid_method_positions", "invalid_method_via_linkback_parent", "invalid_method_swapped_for_valid", "recursion_faults", "hook_faults", "post_fault_behaviours"]
 
 SCENARIOS = ["first_call", "rebuild", "cache_miss", "next_chain", "invalid_method", "hook_raises", "recursion"]
 
@@ -244,6 +244,9 @@ def _invalid(spec, env, res, ref, behaviours):
         # every other position: the methods (and the invalid one) live on a parent and the function under test is a
         # linkback copy of it - the offending method is then removed through the parent
         linkback = p % 2 == 1
+        # every third position: one valid method is only registered by the repair itself (offender out, that method
+        # in, before the next call) - the number of registered methods is then the same before and after the repair
+        swap = p % 3 == 2 and len(methods) >= 2
         prog = Program(spec, env=env, tag="c18i", build=False)
         prog.ov = Ovld()
         bad = _bad_method(spec["badkind"], spec, prog.ns, prog.vf)
@@ -251,6 +254,8 @@ def _invalid(spec, env, res, ref, behaviours):
             for i, m in enumerate(methods):
                 if i == p:
                     prog.ov.register(bad)
+                if swap and i == len(methods) - 1:
+                    continue
                 prog.ov.register(prog.make(m), priority=m.get("prio", 0))
             if p == len(methods):
                 prog.ov.register(bad)
@@ -285,6 +290,10 @@ def _invalid(spec, env, res, ref, behaviours):
                     return
         try:
             parent.unregister(bad)
+            if swap:
+                m = methods[-1]
+                parent.register(prog.make(m), priority=m.get("prio", 0))
+                res.count("invalid_method_swapped_for_valid")
         except Exception as e:  # noqa: BLE001
             res.violation("unregister-of-invalid-method-fails", [spec["badkind"], type(e).__name__], spec,
                           observed={"position": p, "error": f"{type(e).__name__}: {e}"[:160]}, acceptable="the function works normally once the offending method is removed")
